@@ -4,6 +4,8 @@ import (
 	"context"
 	"encoding/json"
 	"fmt"
+	"io"
+	"log/slog"
 	"net/http/httptest"
 	"os"
 	"strings"
@@ -116,6 +118,11 @@ func newWSRig(opt *mocrelay.RelayOption, h mocrelay.Handler) *wsRig {
 func (r *wsRig) close() {
 	r.srv.CloseClientConnections()
 	r.srv.Close()
+}
+
+// discardLogger logs at debug level into nothing (the relay formats its log arguments all the same).
+func discardLogger() *slog.Logger {
+	return slog.New(slog.NewTextHandler(io.Discard, &slog.HandlerOptions{Level: slog.LevelDebug}))
 }
 
 func openOptions() *mocrelay.RelayOption {
